@@ -251,7 +251,8 @@ CHECKS = {
        'with a dict + optional-active-name model in response code, returned bytes/listing and post-state; another user\'s set is untouched; '
        '(c) histories of <= 3 (quick) / 4 (thorough) operations on one real ManageSieve connection, including a second connection of the same '
        'user logging in meanwhile and re-login, from an empty or non-empty store (names include one that is a substring of another): a '
-       'fresh connection lists and gets exactly what a plain map says.',
+       'fresh connection lists and gets exactly what a plain map says. (d) the single-script store of the maildir backend '
+       '(pymap.filter.SingleFilterSet) behind the real FilterState: a PUTSCRIPT answered OK is followed by a GETSCRIPT returning the same bytes.',
   note=TRUST + 'Names are compared only for equality (1 symbolic character each). Outside: CHECKSCRIPT/sieve compiler, STARTTLS, other backends.',
   technique='symbolic execution of the real ManageSieve code with z3 against a map model (inductive step from an arbitrary map state)'),
  'C18': dict(
